@@ -130,6 +130,25 @@ def gen_plan(prop, base_seed, i, tier):
     return plan
 
 
+def extra_plans(prop, tier, base_seed):
+    """C04 thorough: deterministic sweep of every shipped curated balanced reaction and its reversal,
+    25 per run, interleaved 1:1 with unbalanced corpus rows that every stage edits."""
+    if prop != "C04" or tier != "thorough":
+        return []
+    pool = balanced_pool()
+    plans = []
+    for rev in (False, True):
+        for k in range(0, len(pool), 25):
+            rng = common.rng_for(base_seed, "C04sweep", (k, rev))
+            chunk = [(_reverse(r) if rev else r) for r in pool[k:k + 25]]
+            others = common.pick_rows(rng, len(chunk), {"mcs-based": 2, "rule-based": 2, "redox": 1})
+            rows = [x for pair in zip(chunk, others) for x in pair]
+            plans.append({"property": "C04", "kind": "run", "rows": rows, "source": "list",
+                          "config": {"n_jobs": rng.choice([1, 4]), "batch_size": rng.choice([None, 7, 50]), "threshold": 0},
+                          "sim": {"sched_seed": rng.getrandbits(40)}})
+    return plans
+
+
 def execute(plan):
     from simworld import runner, oracles
 
